@@ -287,6 +287,31 @@ def rand_fcfg(rng):
     return {"kind": "fcfg", "prods": prods, "via": rng.choice(["text", "text", "api"])}
 
 
+def agreement_fcfg(rng):
+    """agreement templates: one variable shared by two features of a constituent, competing analyses of that
+    constituent with specific atoms (also through a unit production), and siblings that pin the features"""
+    a1, a2 = rng.choice(ATOMS), rng.choice(ATOMS)
+    b1, b2 = rng.choice(ATOMS), rng.choice(ATOMS)
+    prods = [["S", {}, [["V", "A", {"f": "?a", "g": "?b"}], ["V", "B", {"f": "?a"}], ["V", "C", {"g": "?b"}]]]]
+    shared = rng.random() < 0.8
+    prods.append(["A", {"f": "?u", "g": "?u" if shared else "?w"}, [["T", "a"]]])
+    r = rng.random()
+    if r < 0.45:
+        prods.append(["A", {"f": a1, "g": a2}, [["V", "A", {}]]])              # unit production over the general A
+    elif r < 0.8:
+        prods.append(["A", {"f": a1, "g": a2}, [["T", "a"]]])                 # same skeleton, specific atoms
+    else:
+        prods.append(["A", {"f": a1}, [["T", "a"], ["T", "a"]]])
+    prods.append(["B", {"f": b1}, [["T", "b"]]])
+    if rng.random() < 0.5:
+        prods.append(["B", {"f": "y" if b1 == "x" else "x"}, [["T", "b"], ["T", "b"]]])
+    prods.append(["C", {"g": b2}, [["T", "a"]]])
+    if rng.random() < 0.5:
+        prods.append(["C", {"g": "y" if b2 == "x" else "x"}, [["T", "b"]]])
+    rng.shuffle(prods)
+    return {"kind": "fcfg", "prods": prods, "via": rng.choice(["text", "api"])}
+
+
 def ftxt(d):
     return "[" + ",".join("%s=%s" % (k, v) for k, v in d.items()) + "]" if d else ""
 
@@ -347,8 +372,8 @@ def plan(tier, rng, sl, nslices, stats):
     for _ in range(cfg["unify"]):
         a, b = rand_spec(rng), rand_spec(rng)
         yield {"kind": "unify", "a": a, "b": b}
-    for _ in range(cfg["fcfg"]):
-        yield rand_fcfg(rng)
+    for i in range(cfg["fcfg"]):
+        yield agreement_fcfg(rng) if i % 3 == 2 else rand_fcfg(rng)
 
 
 def run_case(c, stats):
